@@ -13,18 +13,19 @@ import (
 // nothing leaks.
 
 type c12Scenario struct {
-	Client    ClientOpts `json:"client"`
-	Server    NegScript  `json:"server"`
-	Inbound   []InEl     `json:"inbound"`
-	CutAt     int64      `json:"cut_at"` // offset into the inbound sequence
-	CutKind   string     `json:"cut_kind"`
-	Seg       int        `json:"segmentation"`
-	LatencyNs int64      `json:"latency_ns"`
-	Dawdle    int        `json:"handler_dawdle"`
-	Preset    int        `json:"preset"`
-	BlockNs   int64      `json:"event_callback_blocks_ns"`
-	AppSends  int        `json:"application_sends_around_the_cut"`
-	Second    bool       `json:"on_second_connection"` // the session under test is the one re-established by Resume after an earlier loss
+	Client       ClientOpts `json:"client"`
+	Server       NegScript  `json:"server"`
+	Inbound      []InEl     `json:"inbound"`
+	CutAt        int64      `json:"cut_at"` // offset into the inbound sequence
+	CutKind      string     `json:"cut_kind"`
+	Seg          int        `json:"segmentation"`
+	LatencyNs    int64      `json:"latency_ns"`
+	Dawdle       int        `json:"handler_dawdle"`
+	Preset       int        `json:"preset"`
+	BlockNs      int64      `json:"event_callback_blocks_ns"`
+	AppSends     int        `json:"application_sends_around_the_cut"`
+	ResetAtStart bool       `json:"reset_as_soon_as_the_session_is_up,omitempty"` // the peer resets the connection while the application is still in its SessionEstablished callback: the first write of the session fails
+	Second       bool       `json:"on_second_connection"`                         // the session under test is the one re-established by Resume after an earlier loss
 }
 
 func netModes(g G, e *Engine) (int, int64) {
@@ -49,6 +50,9 @@ func runC12(e *Engine, g G, o RunOpt) RunInfo {
 	sc := &c12Scenario{Client: DefaultClientOpts(), Server: DefaultNeg()}
 	if g.Pct("tls-close", 10) {
 		return runC12TLS(e, g, sc)
+	}
+	if g.Pct("reset-at-start", 5) {
+		return runC12ResetAtStart(e, g, sc)
 	}
 	sc.Client.SM = g.Bool("sm")
 	sc.Server.SM = sc.Client.SM || g.Bool("srv-sm")
@@ -108,6 +112,7 @@ func runC12(e *Engine, g G, o RunOpt) RunInfo {
 	var readAtEnd int64
 	var kaWritesAfter, kaWritesAtCheck int
 	var live []LiveTask
+	var cli0 *End
 	ka := time.Duration(sc.Client.KeepaliveNs)
 
 	e.Run(func() {
@@ -144,6 +149,7 @@ func runC12(e *Engine, g G, o RunOpt) RunInfo {
 		established = true
 		conn := srv.Conns[len(srv.Conns)-1]
 		cli := conn.Pipe.Cli
+		cli0 = cli
 		if sc.BlockNs > 0 {
 			w.Client.SetHandler(w.EventRecorder(func(ev xmpp.Event) error {
 				if xmpp.VerifEventState(ev) == xmpp.StateDisconnected {
@@ -246,6 +252,15 @@ func runC12(e *Engine, g G, o RunOpt) RunInfo {
 	nDisc := countState(w.Events, xmpp.StateDisconnected)
 	if nErr != 1 {
 		e.Violate("C12", fmt.Sprintf("error-callbacks=%s", cnt(nErr)), "expected exactly one ErrorHandler call after the cut (%s at offset %d), got %d: %v", sc.CutKind, sc.CutAt, nErr, w.Errors)
+	}
+	if nDisc == 1 && sc.CutKind != "silent" && cli0 != nil && cli0.rTerm != nil {
+		// bounded progress once the fault has happened: the end of the stream has reached the client's
+		// socket, so the report does not have to wait for anything but (at most) a keepalive ping
+		// that is under way - for which the receiver waits no longer than the connect timeout
+		ev := lastState(w.Events, xmpp.StateDisconnected)
+		if late := ev.At - cli0.TermAt; late > time.Duration(sc.Client.ConnectTimeout)*time.Second+2*time.Second {
+			e.Violate("C12", "loss-reported-late", "the %s cut reached the client's socket at %v; the loss was reported at %v (keepalive interval %v)", sc.CutKind, cli0.TermAt, ev.At, ka)
+		}
 	}
 	if nDisc != 1 {
 		e.Violate("C12", fmt.Sprintf("disconnected-events=%s", cnt(nDisc)), "expected exactly one Disconnected event after the cut (%s at offset %d), got %d", sc.CutKind, sc.CutAt, nDisc)
@@ -481,6 +496,82 @@ func runC12TLS(e *Engine, g G, sc *c12Scenario) RunInfo {
 	}
 	if kaCheck != kaAfter {
 		e.Violate("C12", "keepalive-after-loss", "%d writes on the dead connection after the loss was reported", kaCheck-kaAfter)
+	}
+	for _, lt := range live {
+		if lt.Harness {
+			continue
+		}
+		e.Violate("C12", "goroutine-left:"+siteOf(lt), "library goroutine %s still alive after the loss\n%s\n%s", lt.Name, lt.Header, clip(lt.Stack, 1500))
+	}
+	return info
+}
+
+// runC12ResetAtStart: the connection is lost at offset 0 of the session - the peer resets it while
+// the application is still busy in its SessionEstablished callback, so that the very first write of
+// the session (the initial presence) fails. The loss has to be reported like any other.
+func runC12ResetAtStart(e *Engine, g G, sc *c12Scenario) RunInfo {
+	sc.ResetAtStart = true
+	sc.Client.SM = g.Bool("sm")
+	sc.Server.SM = sc.Client.SM
+	sc.Client.KeepaliveNs = int64(30*time.Second) + 1
+	sc.CutKind = "rst"
+	sc.LatencyNs = []int64{0, int64(3*time.Millisecond) + 1}[g.N("latency", 2)]
+	e.Net.Latency = time.Duration(sc.LatencyNs)
+	srv := NewServer(e, SimDomain)
+	srv.Scripts = []NegScript{sc.Server}
+	w := NewCW(e, sc.Client, sharedCerts())
+	w.CatchAll()
+	established := false
+	var connectErr error
+	var live []LiveTask
+	ka := time.Duration(sc.Client.KeepaliveNs)
+	e.Run(func() {
+		if err := w.Create(); err != nil {
+			return
+		}
+		w.Client.SetHandler(w.EventRecorder(func(ev xmpp.Event) error {
+			if xmpp.VerifEventState(ev) == xmpp.StateSessionEstablished {
+				e.Sleep(300 * time.Millisecond)
+			}
+			return nil
+		}))
+		e.Go("resetter", func() {
+			if !e.WaitUntilFor("session-up", time.Minute, func() bool {
+				return len(srv.Conns) > 0 && srv.Conns[0].Established != "" && (!sc.Client.SM || srv.Conns[0].Enabled)
+			}) {
+				e.Sleep(10 * time.Millisecond)
+				c := srv.Conns[0]
+				c.Dead = true
+				c.closedByUs = true
+				c.End.Reset()
+				e.Fault("conn.reset_by_peer")
+			}
+		})
+		connectErr, _ = e.Call("Connect", w.Client.Connect)
+		established = len(srv.Conns) > 0 && srv.Conns[0].Established != ""
+		e.Sleep(3*ka + time.Duration(sc.Client.ConnectTimeout+5)*time.Second)
+		live = e.LiveTasks()
+	})
+	info := RunInfo{Scenario: sc, Nontrivial: established}
+	if !established {
+		e.Probe("precondition_failed")
+		return info
+	}
+	e.Probe("c12.reset_at_start")
+	if e.Stuck != "" {
+		e.Violate("C12", "stuck", "%s", e.Stuck)
+	}
+	for _, p := range e.Panics {
+		e.Violate("C12", "panic", "%s: %s", p.Where, p.Value)
+	}
+	// the session was announced (SessionEstablished): its loss must be announced too, once
+	if countState(w.Events, xmpp.StateSessionEstablished) > 0 {
+		if n := countState(w.Events, xmpp.StateDisconnected); n != 1 {
+			e.Violate("C12", fmt.Sprintf("disconnected-events=%s", cnt(n)), "the peer reset the connection right after the session was announced (Connect returned %v): %d Disconnected events", connectErr, n)
+		}
+		if n := len(w.Errors); n != 1 {
+			e.Violate("C12", fmt.Sprintf("error-callbacks=%s", cnt(n)), "the peer reset the connection right after the session was announced (Connect returned %v): %d ErrorHandler calls: %v", connectErr, n, w.Errors)
+		}
 	}
 	for _, lt := range live {
 		if lt.Harness {
